@@ -47,6 +47,7 @@ func classify(r *sctree.Runner, t *sctree.Tree) (bool, []string) {
 	add(r.AbandonedBlockSeen, "abandoned-block")
 	add(r.Hits > 0, "has-hits")
 	add(r.MutatedAfterGet > 0, "caller-mutated-returned-value")
+	add(t.WideTxns > 0, "transaction-of-more-than-30-writes")
 	nt := (t.HasFork() || t.MultiDepthKey()) && r.AncestorThenDescendant
 	return nt, cls
 }
